@@ -1,5 +1,7 @@
 import ScriggoV.Lemmas.FramesRefine
 import ScriggoV.Lemmas.NativeDispatch
+import ScriggoV.Lemmas.FramesStop
+import ScriggoV.Model.RunFuncExit
 /-! C12 — Run reports Stop, Fatal and unrecovered panics exactly as documented; and the
 refinement of Scriggo's call-frame machine to the abstract Go defer/panic/recover machine that
 C01 (stage two) uses; and the state in which native code is called, as the panic classifier
@@ -89,6 +91,80 @@ example : Frames.run [[.defer 1, .defer 1, .panic 7], [.print 1, .stop 2]] 50 = 
   decide +kernel
 example : Frames.run [[.defer 1, .call 2], [.print 1], [.defer 1, .fatal 9]] 50 = ⟨[], .fatal 9⟩ := by
   decide +kernel
+
+/-! ### Stop and Fatal dominate the active panics
+
+`env.Stop(err)` and `env.Fatal(v)` may be called while panics are active: from a deferred call that
+runs because its function is panicking, after a `recover()` in the same deferred call (the panic is
+dropped only when that call returns), with several panics stacked. The documentation makes no
+exception: `Run` returns `err` / panics with `v`. -/
+
+/-- For every program of the abstract language: whenever a run of the frame machine reaches —
+after any number `m` of steps, so with any call stack and any chain of active or recovered panics
+— an instruction that calls `env.Stop(errs[k])`, every run with more fuel ends there: `Run`
+returns that very error, the events are those printed so far, and the outcome is not the panic
+chain. -/
+theorem stop_dominates_active_panic (p : Prog) (m : Nat) (s : Frames.State)
+    (hreach : Frames.StepsTo p m Frames.init s) (body : Body) (k : Nat)
+    (hb : bodyOf p s.cur = some body) (hi : fetch body s.pc = .stop k) (n : Nat) :
+    Frames.run p (m + (n + 1)) = ⟨s.out.reverse, .stopped k⟩ ∧
+    ∀ chain, (Frames.run p (m + (n + 1))).outcome ≠ .panicked chain := by
+  have h : Frames.run p (m + (n + 1)) = ⟨s.out.reverse, .stopped k⟩ := by
+    unfold Frames.run
+    rw [Frames.iterate_stepsTo hreach (n + 1)]
+    exact stop_returns_err_no_defers p s body k hb hi n
+  exact ⟨h, by intro chain; rw [h]; simp⟩
+
+/-- the same for `env.Fatal(v)`: the host panics with `v`, whatever panics were active -/
+theorem fatal_dominates_active_panic (p : Prog) (m : Nat) (s : Frames.State)
+    (hreach : Frames.StepsTo p m Frames.init s) (body : Body) (v : Nat)
+    (hb : bodyOf p s.cur = some body) (hi : fetch body s.pc = .fatal v) (n : Nat) :
+    Frames.run p (m + (n + 1)) = ⟨s.out.reverse, .fatal v⟩ ∧
+    ∀ chain, (Frames.run p (m + (n + 1))).outcome ≠ .panicked chain := by
+  have h : Frames.run p (m + (n + 1)) = ⟨s.out.reverse, .fatal v⟩ := by
+    unfold Frames.run
+    rw [Frames.iterate_stepsTo hreach (n + 1)]
+    exact fatal_panics_with_v p s body v hb hi n
+  exact ⟨h, by intro chain; rw [h]; simp⟩
+
+/-- … and Go agrees (the abstract Go machine on the same program), by the refinement -/
+theorem stop_dominates_active_panic_go (p : Prog) (hp : p.isUser = true) (m : Nat) (s : Frames.State)
+    (hreach : Frames.StepsTo p m Frames.init s) (body : Body) (k : Nat)
+    (hb : bodyOf p s.cur = some body) (hi : fetch body s.pc = .stop k) (n : Nat) :
+    GoDefer.run p (m + (n + 1)) = ⟨s.out.reverse, .stopped k⟩ := by
+  rw [← frames_refine_go p hp]
+  exact (stop_dominates_active_panic p m s hreach body k hb hi n).1
+
+/-- the hypotheses are met by a run that is panicking when Stop is called: `main` defers `f1` and
+panics with 7; `f1` recovers (the panic stays in the chain, marked recovered, until `f1` returns),
+panics are active, and calls Stop(2) -/
+example : ∃ (s : Frames.State) (body : Body),
+    Frames.StepsTo [[.defer 1, .panic 7], [.recover, .stop 2]] 3 Frames.init s ∧
+    bodyOf [[.defer 1, .panic 7], [.recover, .stop 2]] s.cur = some body ∧
+    fetch body s.pc = .stop 2 ∧ s.chain ≠ [] := by
+  refine ⟨_, _, .step rfl (.step rfl (.step rfl (.refl _))), rfl, rfl, by decide⟩
+
+example : Frames.run [[.defer 1, .panic 7], [.recover, .stop 2]] 50 = ⟨[.recov (some 7)], .stopped 2⟩ := by
+  decide +kernel
+example : Frames.run [[.defer 1, .defer 2, .panic 7], [.fatal 9], [.panic 8]] 50 = ⟨[], .fatal 9⟩ := by
+  decide +kernel
+
+/-- The exit path of `VM.runFunc`, regenerated from run.go on every check: an error that is not a
+`*PanicError` (the stopError of `env.Stop`, the `*fatalError` of `env.Fatal`) is what runFunc
+returns — whether or not `vm.panic` holds active panics, whether or not the context watcher has
+fired. (`VM.Run` then unwraps it: `Gen.ConvertPanic.runUnwrap`.) -/
+theorem runFunc_returns_stop_fatal_before_panic_chain (panicActive ctxDone : Bool) :
+    RunFuncExit.onNonPanicError panicActive ctxDone = some .err := by
+  cases panicActive <;> cases ctxDone <;> decide
+
+/-- and at the normal end of the loop an active panic chain is what runFunc returns -/
+theorem runFunc_returns_panic_chain_at_end :
+    RunFuncExit.evalTail Gen.RunFuncExit.tail true false = some .panicChain := by decide
+
+/-- teeth: a single exit `break … if vm.panic != nil { return vm.panic }; return err` gives the
+panic chain precedence over Stop/Fatal -/
+example : RunFuncExit.evalTail [.ifDoneReturnCtxErr, .ifPanicReturnPanic, .returnErr] true false = some .panicChain := by
+  decide
 
 /-! ### native code is called in a state the panic classifier recognises
 
